@@ -1,4 +1,4 @@
-//go:build !skip_c15 || !skip_c16
+//go:build !skip_c15_indep
 
 package main
 
